@@ -31,6 +31,24 @@ SCOPE = {
 }
 
 
+def module_meta(pid):
+    """LEVEL_TEXT / LEVEL_NOTE / RULE of harness/props/cxx.py (kept truthful by whoever extends the check)."""
+    import ast
+    f = os.path.join(V, "harness", "props", pid.lower() + ".py")
+    ns = {}
+    for node in ast.parse(open(f).read()).body:
+        if isinstance(node, ast.Assign) and isinstance(node.targets[0], ast.Name) and \
+                node.targets[0].id in ("LEVEL_TEXT", "LEVEL_NOTE", "RULE"):
+            try:
+                ns[node.targets[0].id] = ast.literal_eval(node.value)
+            except Exception:
+                try:
+                    ns[node.targets[0].id] = eval(compile(ast.Expression(node.value), f, "eval"), {})
+                except Exception:
+                    pass
+    return ns
+
+
 def theorems(pid):
     txt = re.sub(r"\(\*.*?\*\)", "", open(os.path.join(V, "coq", pid, "Props.v")).read(), flags=re.S)
     return re.findall(r"^\s*(?:Theorem|Lemma|Corollary)\s+([A-Za-z0-9_']+)", txt, flags=re.M)
@@ -42,7 +60,15 @@ def seeded(pid):
     if not os.path.isdir(d):
         return rows
     summ = {}
-    sp = os.path.join(d, "summary.txt")
+    st = os.path.join(d, "status.txt")
+    if os.path.exists(st):
+        for line in open(st):
+            m = re.match(r"(C\d+) (m\d+) (?:\(check (C\d+)\) )?(caught|tie-only|missed)", line)
+            if m:
+                q = m.group(3) or pid
+                word = {"caught": "caught", "tie-only": "caught (tie only, no failing input found)", "missed": "MISSED"}[m.group(4)]
+                summ.setdefault(m.group(2), []).append((pid, True, False, "%s: %s" % (q, word)))
+    sp = os.path.join(d, "summary.txt") if not summ else os.path.join(d, "no-such-file")
     if os.path.exists(sp):
         for line in open(sp):
             m = re.match(r"(C\d+) (m\d+)\b.*?check (C\d+): (.*)", line)
@@ -79,14 +105,19 @@ def main():
            "T = part of the model regenerated from the source on every run. \"Model = fixed code\" means the model describes "
            "/repo after the `fix:` commits listed; the unfixed behaviour is kept as a `_refuted` theorem with a `vm_compute` witness.\n",
            "Seeded changes (`seeded/Cxx/m*`: patch.diff, demo.py, meta.json) were written by independent sub-agents that saw only "
-           "the property text and a scratch worktree; each was confirmed by `tools/confirm_mutant.sh` (demo passes on HEAD, fails with "
-           "the patch, related mpf tests pass) and run through `tools/try_mutant.sh` (quick tier). \"missed\" entries name what was "
-           "added afterwards where something was.\n"]
+           "the property text and a scratch worktree; each was confirmed in a scratch worktree (round 1 m1-m4: `tools/confirm_mutant.sh`, related mpf "
+           "tests; round 2 m5-m8: `tools/eval2.sh`, demo passes on HEAD and fails with the patch, the whole pinned suite of "
+           "/root/.vp/BASELINE.json still passes with the patch) and run through `tools/try_mutant.sh` (quick tier of the CURRENT "
+           "check; `tools/reeval_seeded.sh` refreshes `seeded/Cxx/status.txt`). 'tie only' = the check reported VIOLATION ... "
+           "no-failing-input-found (correspondence or proof broke, the oracle found no input).\n"]
     for i in range(1, 21):
         pid = "C%02d" % i
         th = theorems(pid)
         out.append("### %s\n" % pid)
-        out.append("*Scope.* " + SCOPE[pid] + "\n")
+        mm = module_meta(pid)
+        out.append("*What is proved and tied (from harness/props/%s.py).* %s\n" % (pid.lower(), mm.get("LEVEL_TEXT", SCOPE[pid])))
+        if mm.get("LEVEL_NOTE"):
+            out.append("*Trusted / modelled rather than verified.* " + mm["LEVEL_NOTE"] + "\n")
         out.append("*Theorems (%d, all closed under the global context).* %s\n" % (len(th), ", ".join("`%s`" % t for t in th)))
         fx = [f for f in kf if f["property"] == pid and f["status"] == "fixed"]
         kn = [f for f in kf if f["property"] == pid and f["status"] == "known"]
